@@ -258,6 +258,11 @@ KINDS = {
     'two_irv': lambda: [irv(inst()), irv(inst())],
     'pv_only': lambda: [eos('TRUE')],
     'returnvalue': lambda: [N('RETURNVALUE', {'PARAMTYPE': 'uint32'}, V_('0'))],
+    # output parameters that carry the name of an element
+    'pv_named_irv': lambda: [pv('IRETURNVALUE', None, V_('x'))],
+    'pv_named_irv_typed': lambda: [pv('IRETURNVALUE', 'string', N('VALUE.ARRAY', None, V_('x')))],
+    'pv_named_error': lambda: [pv('ERROR', 'string', V_('x'))],
+    'pv_named_returnvalue': lambda: [pv('RETURNVALUE', 'string', V_('x'))],
 }
 
 
@@ -394,6 +399,7 @@ def ok_cimdata(v, depth=0):
 
 
 WRONG_ITEMS = 'items-of-wrong-class'
+NOT_A_LIST = 'items-not-a-list'
 
 
 def list_of(pred):
@@ -428,7 +434,7 @@ def pull_tuple(field, pred, query=False):
             return False
         items = getattr(r, field)
         if not isinstance(items, list):
-            return False
+            return NOT_A_LIST
         if not all(pred(x) for x in items):
             return WRONG_ITEMS
         if not isinstance(r.eos, bool):
@@ -836,6 +842,8 @@ KNOWN_ESCAPES = [
     ('TypeError', r'^(ExecQuery|_get_returned_objects|_get_returned_objectnames)$', r'.', WRONG_CHILD, 'unexpected-IRETURNVALUE-child-TypeError-in-{site}'),
     ('ValueError', r'^_get_returned_objects$', r'.', WRONG_CHILD, 'unexpected-IRETURNVALUE-child-ValueError-in-{site}'),
     ('AssertionError', r'^ExecQuery$', r'^path$', r'^$', 'unexpected-IRETURNVALUE-child-AssertionError-in-{site}'),
+    ('AttributeError', r'^IterQueryInstances$', r'^IterQueryInstances$', r"'str' object has no attribute 'extend'",
+     'PARAMVALUE-named-IRETURNVALUE-AttributeError-in-IterQueryInstances'),
     ('TypeError', r'^_get_rslt_params$', r'^_get_rslt_params$', r"'NoneType' object is not iterable", 'open-pull-empty-IMETHODRESPONSE-TypeError-in-_get_rslt_params'),
     ('LookupError', r'^xml_to_tupletree_sax$', r'.', r'unknown encoding', 'xml-declaration-unknown-encoding-LookupError'),
     ('ValueError', r'^xml_to_tupletree_sax$', r'.', r'multi-byte encodings are not supported', 'xml-declaration-multibyte-encoding-ValueError'),
@@ -952,6 +960,9 @@ def case(spec, key, reply, expect=None, why='', all_replies=None):
             if ok == WRONG_ITEMS and spec.meth.startswith(('Open', 'Pull', 'Iter')) and not spec.key.endswith('/fallback'):
                 # reproduced on the unchanged tree: _get_rslt_params hands back whatever IRETURNVALUE held
                 viol('known:open-pull-result-objects-of-wrong-class-not-rejected')
+            elif ok == NOT_A_LIST and spec.meth.startswith(('Open', 'Pull')) and isinstance(val[0], str):
+                # reproduced on the unchanged tree: <PARAMVALUE NAME="IRETURNVALUE"> is taken for the IRETURNVALUE element
+                viol('known:open-pull-PARAMVALUE-named-IRETURNVALUE-returned-as-the-result-objects')
             else:
                 viol('wrong-result-type-%s-%s' % (spec.meth, ok or 'shape'))
     # outcome reference model
@@ -1270,6 +1281,12 @@ def sec_baselines():
             if spec.key.endswith('/fallback') and int(code) in (1, 7):
                 continue
             case(spec, ('error', code, desc), Reply(doc(spec.root(kids=[err]))), error_model(err), 'ERROR element -> CIMError')
+        if THOROUGH or spec.key in ('GetInstance', 'InvokeMethod/inst', 'InvokeMethod/class', 'ExportIndication', 'PullInstances'):
+            for v in NUM_POOL if THOROUGH else NUM_POOL_Q:      # CODE from the value pool
+                for a in ({'CODE': v}, {'CODE': v, 'DESCRIPTION': v}):
+                    err = N('ERROR', a)
+                    case(spec, ('error-code-pool', 'BIGINT' if v == BIGINT else v, len(a)), Reply(doc(spec.root(kids=[err]))),
+                         error_model(err), 'ERROR element -> CIMError')
         # ERROR carrying instances
         err = N('ERROR', {'CODE': '4', 'DESCRIPTION': 'with instance'}, inst(prop('Msg', 'string', 'm'), cls='CIM_Error'))
         case(spec, ('error-with-instance',), Reply(doc(spec.root(kids=[err]))),
@@ -1529,7 +1546,7 @@ def sec_fragments():
 def sec_pairs():
     """thorough only: seeded pairs of mutations on fragments and per-operation replies."""
     frs = fragments()
-    n = 12000
+    n = 40000
     for i in range(n):
         fid, key, root, focus, light, chk = frs[RND.randrange(len(frs))]
         spec = SPEC[key]
@@ -1543,13 +1560,16 @@ def sec_pairs():
         except (IndexError, ValueError):
             continue
         case(spec, ('pair', fid, mut_key(root, a), mut_key(r1, b)), Reply(doc(r2)))
-    for i in range(6000):
+    for i in range(20000):
         spec = SPECS[RND.randrange(len(SPECS))]
         root = spec.root()
         m1 = list(gen_mutations(root, RSP_PATH, 99))
         a = m1[RND.randrange(len(m1))]
         r1 = apply_mut(root, a)
-        m2 = list(gen_mutations(r1, RSP_PATH, 99))
+        try:
+            m2 = list(gen_mutations(r1, RSP_PATH, 99))
+        except IndexError:          # the first mutation removed the response element
+            m2 = list(gen_mutations(r1, (), 99))
         if not m2:
             continue
         b = m2[RND.randrange(len(m2))]
@@ -1967,7 +1987,8 @@ def sec_loopback():
                     socket_case(spec, (nm, mode), exp, payload)
             # stalls: nothing at all, after the status line, in the middle of the body
             good = http_msg(doc(spec.root()))
-            for nm, payload in (('stall-silent', b''), ('stall-after-status', b'HTTP/1.1 200 OK\r\n'), ('stall-in-body', good[:-25])):
+            for nm, payload in (('stall-silent', b''), ('stall-after-status', b'HTTP/1.1 200 OK\r\n'),
+                                ('stall-in-body', good[:-25]))[:3 if THOROUGH or key == 'GetInstance' else 1]:
                 srv.script, srv.hits = (payload, 1.5, False), 0
                 socket_case(spec, (nm, 'stall'), (pywbem.TimeoutError, pywbem.ConnectionError), payload)
             spec.conn.close()
